@@ -14,6 +14,10 @@
 //! fetches / scans during the read), so that the Lean driver can validate the run against the
 //! LTS model (a store read is only admissible if the model can have evicted the entry).
 //! The oracle is a reference BTreeMap/BTreeSet: every read must equal the reference.
+//!
+//! `--conc-gated`: gated multi-thread schedules on the real `CacheKeyOfSetMap` (`ccase` / `cev …` / `cend` lines,
+//! replayed step by step by `drv_cache conc`); `--conc-stress`: free-running threads, report only.  Both are judged
+//! in the harness by per-element regular semantics (see the sections near the end of this file).
 #![allow(clippy::all)]
 use std::any::{Any, TypeId};
 use std::collections::{BTreeMap, BTreeSet, HashMap};
@@ -76,10 +80,14 @@ impl KeyOfSetColumn for SCol {
 /// Key type of the maps under test.  Its `Hash` impl is the harness's handle on the write manager's
 /// after-commit thread (no hook in /repo): the first key that thread hashes for a batch is the
 /// `staging/get_map` lookup of `flush_staging`, and it waits there for a `notify` permit.
-#[derive(Debug, Clone, PartialEq, Eq)]
+#[derive(Debug, PartialEq, Eq)]
 pub struct HKey(pub u64);
+impl Clone for HKey {
+    fn clone(&self) -> Self { whook(HEv::Clone, self as *const HKey as usize, self.0); HKey(self.0) }
+}
 impl Hash for HKey {
     fn hash<H: Hasher>(&self, state: &mut H) {
+        whook(HEv::Hash, self as *const HKey as usize, self.0); // gate of the --conc-gated worker threads (no-op on every other thread)
         if std::thread::current().name() == Some("bg_writer_after_commit") { ac_on_hash(None, self.0); }
         self.0.hash(state);
     }
@@ -123,7 +131,9 @@ sent_col!(Sent0); sent_col!(Sent1); sent_col!(Sent2); sent_col!(Sent3); sent_col
 struct AcGate { permits: u64, in_batch: bool, done: u64, open: bool, last_sent: u64, order: Vec<(bool, u64)> }
 static AC: Mutex<AcGate> = Mutex::new(AcGate { permits: 0, in_batch: false, done: 0, open: false, last_sent: 0, order: Vec::new() });
 static AC_CV: Condvar = Condvar::new();
+static AC_CALLS: AtomicU64 = AtomicU64::new(0); // activity of the after-commit thread (used by --conc-stress to wait for quiescence)
 fn ac_on_hash(sent: Option<u64>, key: u64) {
+    AC_CALLS.fetch_add(1, Ordering::SeqCst);
     let mut g = AC.lock().unwrap();
     if !g.in_batch {
         let t0 = Instant::now();
@@ -312,7 +322,11 @@ impl KvDatabase for HarnessKv {
     }
     fn scan_members<C: KeyOfSetColumn>(&self, key: &C::Key) -> Self::ScanMemberIterator<C> {
         self.0.scans.fetch_add(1, Ordering::SeqCst);
+        tl_note(false);
+        let gated = TypeId::of::<C>() == TypeId::of::<SCol>() && key_u64(key) == CK;
+        if gated { whook(HEv::ScanB, 0, CK); } // --conc-gated rendezvous BEFORE the store is read
         let v: Vec<u64> = self.0.sets.lock().unwrap().get(&(TypeId::of::<C>(), key_u64(key))).map(|s| s.iter().copied().collect()).unwrap_or_default();
+        if gated { whook(HEv::ScanA, 0, CK); } // … and AFTER it has been read
         {
             // optional rendezvous AFTER the scan snapshot has been taken (inside the set cache's fetch)
             let k = key_u64(key);
@@ -343,18 +357,20 @@ impl KvDatabase for HarnessKv {
 // ConcurrentSet with sorted iteration and a creation counter (one creation = one fetch from the store)
 // ------------------------------------------------------------------------------------------------
 static SET_CREATED: AtomicU64 = AtomicU64::new(0);
-#[derive(Clone)]
 pub struct SortedSet(Arc<Mutex<BTreeSet<u64>>>);
+impl Clone for SortedSet {
+    fn clone(&self) -> Self { whook(HEv::SsClone, 0, CK); SortedSet(self.0.clone()) }
+}
 impl Default for SortedSet {
-    fn default() -> Self { SET_CREATED.fetch_add(1, Ordering::SeqCst); SortedSet(Arc::new(Mutex::new(BTreeSet::new()))) }
+    fn default() -> Self { whook(HEv::SsDefault, 0, CK); tl_note(true); SET_CREATED.fetch_add(1, Ordering::SeqCst); SortedSet(Arc::new(Mutex::new(BTreeSet::new()))) }
 }
 impl ConcurrentSet for SortedSet {
     type Element = u64;
     type Iterator<'x> = std::vec::IntoIter<u64>;
-    fn insert_element(&self, e: u64) -> bool { self.0.lock().unwrap().insert(e) }
-    fn remove_element(&self, e: &u64) -> bool { self.0.lock().unwrap().remove(e) }
-    fn len(&self) -> usize { self.0.lock().unwrap().len() }
-    fn iter(&self) -> Self::Iterator<'_> { self.0.lock().unwrap().iter().copied().collect::<Vec<_>>().into_iter() }
+    fn insert_element(&self, e: u64) -> bool { whook(HEv::SsIns, 0, CK); self.0.lock().unwrap().insert(e) }
+    fn remove_element(&self, e: &u64) -> bool { whook(HEv::SsRem, 0, CK); self.0.lock().unwrap().remove(e) }
+    fn len(&self) -> usize { let n = self.0.lock().unwrap().len(); whook(HEv::SsLen(n), 0, CK); n }
+    fn iter(&self) -> Self::Iterator<'_> { whook(HEv::SsIter, 0, CK); self.0.lock().unwrap().iter().copied().collect::<Vec<_>>().into_iter() }
 }
 
 
@@ -940,6 +956,999 @@ fn scenario_scan_vs_commit_flush<S: SentinelCol>(cap: u64, evicted: bool, remove
     None
 }
 
+// >>> CONC-BEGIN
+// ------------------------------------------------------------------------------------------------
+// --conc-gated: gated multi-thread schedules on the real `CacheKeyOfSetMap`
+//
+// Worker threads are parked at gates that live in harness-owned code which the set cache calls on the worker's own
+// thread (no hook in /repo): `HKey::hash` / `HKey::clone`, `HarnessKv::scan_members`, `SortedSet::*`.  A hash of
+// the key is attributed to a call site of `get_entry` / `apply_op` only if it goes through the very reference the
+// worker passed in (same address: `staging.get_map`, `cache.get`, `single_flight.hash_one`, `shard.remove`);
+// hashes of clones (scc entry, TinyLFU maintenance, write batch) have other addresses and are ignored, so the
+// TinyLFU's piggy-backed maintenance cannot confuse the gate positions.  The controller releases one worker at a
+// time and waits until it is parked again, finished, or blocked as a single-flight waiter (its future is polled by
+// hand; `Pending` is reported to the controller).
+// ------------------------------------------------------------------------------------------------
+/// the set key all gated schedules work on
+const CK: u64 = 1;
+
+#[derive(Clone, Copy, PartialEq, Eq, Debug)]
+enum Pt { R0 = 0, R1 = 1, R2 = 2, R3 = 3, R4 = 4, R6 = 5, W0 = 6, W1 = 7, W2 = 8 }
+const PT_ALL: [Pt; 9] = [Pt::R0, Pt::R1, Pt::R2, Pt::R3, Pt::R4, Pt::R6, Pt::W0, Pt::W1, Pt::W2];
+const PT_NAMES: [&str; 9] = ["get_before_snapshot", "get_before_lookup", "get_before_single_flight", "get_before_scan", "get_after_scan", "get_before_read",
+    "write_before_stage", "write_before_lookup", "write_before_apply"];
+const R_GATES: [Pt; 6] = [Pt::R0, Pt::R1, Pt::R2, Pt::R3, Pt::R4, Pt::R6];
+const fn bit(p: Pt) -> u32 { 1 << (p as u32) }
+
+#[derive(Clone, Copy, PartialEq, Eq, Debug)]
+enum WSt { Idle, Running, Parked(Pt), Pending, Done }
+#[derive(Clone, Copy, PartialEq, Eq, Debug)]
+enum HEv { Hash, Clone, SsDefault, SsClone, SsIter, SsIns, SsRem, SsLen(usize), ScanB, ScanA }
+
+type SetM = <Eng as StorageEngine>::KeyOfSetMap<SCol, SortedSet>;
+/// an active write batch must never be dropped (`WriteBatch::drop` asserts): on an error path it is leaked instead
+struct BatchBox(Option<Batch>);
+impl Drop for BatchBox { fn drop(&mut self) { if let Some(b) = self.0.take() { std::mem::forget(b); } } }
+enum Cmd { Get { stops: u32 }, Write { x: u64, ins: bool, batch: BatchBox, stops: u32 }, Quit }
+enum Res { Got(BTreeSet<u64>), Wrote(BatchBox) }
+
+struct WInner {
+    t: usize, st: WSt, go: bool, free: bool, stops: u32,
+    log: Vec<(String, Option<String>)>, trace: Vec<&'static str>, bad: Option<String>, res: Option<Res>,
+    // state machine of the operation in progress (0 = none, 1 = get, 2 = insert/remove)
+    kind: u8, orig: usize, dcount: u32, in_fetch: bool, scanned: bool, iters: u32, inst: u8, installed: bool,
+    wx: u64, wins: bool, looked: bool, applied: bool, downgrade: bool,
+    parks: [u64; 9],
+}
+struct WShared { m: Mutex<WInner>, cv: Condvar, woken: std::sync::atomic::AtomicBool }
+impl std::task::Wake for WShared {
+    fn wake(self: Arc<Self>) { self.woken.store(true, Ordering::SeqCst); }
+    fn wake_by_ref(self: &Arc<Self>) { self.woken.store(true, Ordering::SeqCst); }
+}
+thread_local! { static WCTX: std::cell::RefCell<Option<Arc<WShared>>> = const { std::cell::RefCell::new(None) }; }
+#[inline]
+fn whook(ev: HEv, addr: usize, key: u64) {
+    let _ = WCTX.try_with(|c| { if let Ok(b) = c.try_borrow() { if let Some(w) = b.as_ref() { w.event(ev, addr, key); } } });
+}
+impl WShared {
+    fn new(t: usize) -> Arc<Self> {
+        Arc::new(WShared { m: Mutex::new(WInner { t, st: WSt::Idle, go: false, free: false, stops: 0, log: vec![], trace: vec![], bad: None, res: None,
+            kind: 0, orig: 0, dcount: 0, in_fetch: false, scanned: false, iters: 0, inst: 0, installed: false, wx: 0, wins: false, looked: false, applied: false, downgrade: false, parks: [0; 9] }),
+            cv: Condvar::new(), woken: std::sync::atomic::AtomicBool::new(false) })
+    }
+    fn park<'a>(&'a self, mut g: std::sync::MutexGuard<'a, WInner>, p: Pt) {
+        if g.free || g.stops & bit(p) == 0 { return; }
+        g.parks[p as usize] += 1;
+        g.st = WSt::Parked(p); g.go = false;
+        self.cv.notify_all();
+        let t0 = Instant::now();
+        while !g.go && !g.free {
+            let (g2, _) = self.cv.wait_timeout(g, Duration::from_millis(200)).unwrap();
+            g = g2;
+            if t0.elapsed() > Duration::from_secs(40) { g.free = true; g.bad = Some("a parked worker was never released".into()); }
+        }
+        g.go = false; g.st = WSt::Running;
+    }
+    /// the worker's future returned `Pending` (single-flight waiter): report it and wait to be polled again
+    fn pend(&self) {
+        let mut g = self.m.lock().unwrap();
+        if g.free { drop(g); std::thread::sleep(Duration::from_millis(1)); return; }
+        g.st = WSt::Pending; g.go = false;
+        self.cv.notify_all();
+        let t0 = Instant::now();
+        while !g.go && !g.free {
+            let (g2, _) = self.cv.wait_timeout(g, Duration::from_millis(200)).unwrap();
+            g = g2;
+            if t0.elapsed() > Duration::from_secs(40) { g.free = true; g.bad = Some("a waiting worker was never polled again".into()); }
+        }
+        g.go = false; g.st = WSt::Running;
+    }
+    fn event(&self, ev: HEv, addr: usize, key: u64) {
+        let mut g = self.m.lock().unwrap();
+        if g.kind == 0 { return; }
+        if matches!(ev, HEv::Hash | HEv::Clone) {
+            let is_k = key == CK;
+            if is_k && g.orig == 0 { g.orig = addr; }
+            let direct = is_k && addr == g.orig;
+            // did `cache.entry`'s closure insert?  (`key.clone()` through the worker's reference, the hash of that
+            // clone in `entry_sync`, then – only when the vacant entry is filled – a clone of the entry's key before
+            // anything else is hashed; maintenance always hashes a key before it clones one)
+            if g.kind == 1 && g.in_fetch && g.scanned {
+                match g.inst {
+                    0 => { if direct && ev == HEv::Clone { g.inst = 1; } }
+                    1 => { if is_k && !direct && ev == HEv::Hash { g.inst = 2; } }
+                    2 => { if is_k && !direct && ev == HEv::Clone { g.installed = true; } g.inst = 3; }
+                    _ => {}
+                }
+            }
+            if !direct || ev == HEv::Clone { return; }
+        }
+        let t = g.t;
+        g.trace.push(match ev { HEv::Hash => "h", HEv::Clone => "c", HEv::SsDefault => "default", HEv::SsClone => "ssclone", HEv::SsIter => "iter", HEv::SsIns => "ins", HEv::SsRem => "rem", HEv::SsLen(_) => "len", HEv::ScanB => "scanB", HEv::ScanA => "scanA" });
+        macro_rules! bad { ($m:expr) => {{ if g.bad.is_none() { g.bad = Some(format!("{} (events of the operation so far: {:?})", $m, g.trace)); } return; }}; }
+        if g.kind == 1 {
+            match ev {
+                HEv::Hash => {
+                    if g.in_fetch {
+                        // `shard.remove(key)` of the single flight: the work closure (fetch + `cache.entry`) is over
+                        g.in_fetch = false; g.dcount = 4;
+                        let o = if g.installed { "inst" } else { "noinst" };
+                        g.log.push((format!("ginstall {t} obs={o}"), None));
+                        return;
+                    }
+                    if g.dcount == 3 { g.dcount = 0; } // was a waiter of the single flight: next iteration of the loop
+                    match g.dcount {
+                        0 => {
+                            if g.iters == 0 { g.log.push((format!("gstart {t}"), None)); } else { g.log.push((format!("gretry {t}"), None)); }
+                            g.log.push((format!("gload {t}"), None));
+                            g.iters += 1; g.dcount = 1;
+                            self.park(g, Pt::R0);
+                        }
+                        1 => { g.log.push((format!("gsnap {t}"), None)); g.dcount = 2; self.park(g, Pt::R1); }
+                        2 => { g.log.push((format!("glookup {t} obs=miss"), None)); g.dcount = 3; self.park(g, Pt::R2); }
+                        _ => bad!("get: unexpected hash of the key through the caller's reference"),
+                    }
+                }
+                HEv::SsDefault => {
+                    if g.dcount != 3 || g.in_fetch { bad!("get: a set was created outside the single flight"); }
+                    g.in_fetch = true; g.scanned = false; g.inst = 0; g.installed = false;
+                }
+                HEv::ScanB => {
+                    if g.in_fetch { if g.scanned { bad!("get: second scan inside one fetch"); } self.park(g, Pt::R3); }
+                    else {
+                        if g.dcount == 2 { g.log.push((format!("glookup {t} obs=hit"), None)); g.dcount = 5; } else if g.dcount != 4 && g.dcount != 5 { bad!("get: streaming scan at an unexpected place"); }
+                        self.park(g, Pt::R6);
+                    }
+                }
+                HEv::ScanA => { if g.in_fetch { g.scanned = true; g.log.push((format!("gscan {t}"), None)); self.park(g, Pt::R4); } }
+                HEv::SsClone => {
+                    if g.in_fetch { bad!("get: set cloned inside the fetch"); }
+                    if g.dcount == 2 { g.log.push((format!("glookup {t} obs=hit"), None)); g.dcount = 5; } else if g.dcount != 4 { bad!("get: cached set cloned at an unexpected place"); }
+                    self.park(g, Pt::R6);
+                }
+                HEv::SsIter => {}
+                HEv::SsIns | HEv::SsRem | HEv::SsLen(_) => { if !g.in_fetch { bad!("get: set modified outside the fetch"); } }
+                HEv::Clone => {}
+            }
+        } else {
+            match ev {
+                HEv::Hash => match g.dcount {
+                    0 => { g.dcount = 1; self.park(g, Pt::W0); }
+                    1 => {
+                        let (x, i) = (g.wx, u8::from(g.wins));
+                        g.log.push((format!("stage {t} {x} {i}"), None)); g.log.push((format!("bump {t}"), None));
+                        g.dcount = 2; self.park(g, Pt::W1);
+                    }
+                    _ => bad!("write: unexpected hash of the key through the caller's reference"),
+                },
+                HEv::SsIns | HEv::SsRem => {
+                    if g.dcount != 2 || g.looked { bad!("write: in-place update at an unexpected place"); }
+                    if (ev == HEv::SsIns) != g.wins { bad!("write: in-place update of the wrong kind"); }
+                    g.looked = true;
+                    g.log.push((format!("wlookup {t} obs=apply"), None));
+                    self.park(g, Pt::W2);
+                }
+                HEv::SsLen(n) => {
+                    if !g.looked || g.applied { bad!("write: len() at an unexpected place"); }
+                    g.applied = true; g.log.push((format!("wapply {t}"), None));
+                    if n > 1024 { g.downgrade = true; }
+                }
+                _ => bad!("write: unexpected call into the harness"),
+            }
+        }
+    }
+}
+
+fn worker_main(sh: Arc<WShared>, rx: std::sync::mpsc::Receiver<Cmd>, setm: Arc<SetM>) {
+    use std::future::Future;
+    WCTX.with(|c| *c.borrow_mut() = Some(sh.clone()));
+    let waker = std::task::Waker::from(sh.clone());
+    let mut cx = std::task::Context::from_waker(&waker);
+    while let Ok(cmd) = rx.recv() {
+        match cmd {
+            Cmd::Quit => break,
+            Cmd::Get { stops } => {
+                let key = HKey(CK);
+                {
+                    let mut g = sh.m.lock().unwrap();
+                    g.kind = 1; g.orig = &key as *const HKey as usize; g.dcount = 0; g.in_fetch = false; g.scanned = false; g.iters = 0; g.inst = 0; g.installed = false;
+                    g.stops = stops; g.trace.clear();
+                }
+                sh.woken.store(false, Ordering::SeqCst);
+                let got: BTreeSet<u64> = {
+                    let mut fut = Box::pin(setm.get(&key));
+                    loop {
+                        match fut.as_mut().poll(&mut cx) {
+                            std::task::Poll::Ready(it) => break it.collect(),
+                            std::task::Poll::Pending => sh.pend(),
+                        }
+                    }
+                };
+                let mut g = sh.m.lock().unwrap();
+                if g.dcount != 4 && g.dcount != 5 && g.bad.is_none() { g.bad = Some(format!("get returned at an unexpected place (events {:?})", g.trace)); }
+                let t = g.t;
+                g.log.push((format!("gread {t}"), Some(fmt_set(&got))));
+                g.kind = 0; g.res = Some(Res::Got(got)); g.st = WSt::Done;
+                sh.cv.notify_all();
+            }
+            Cmd::Write { x, ins, batch, stops } => {
+                let mut batch = batch;
+                let key = HKey(CK);
+                {
+                    let mut g = sh.m.lock().unwrap();
+                    g.kind = 2; g.orig = 0; g.dcount = 0; g.wx = x; g.wins = ins; g.looked = false; g.applied = false; g.downgrade = false;
+                    g.stops = stops; g.trace.clear();
+                }
+                {
+                    let b = batch.0.as_mut().expect("batch");
+                    if ins {
+                        let mut fut = Box::pin(setm.insert(HKey(CK), x, b));
+                        loop { if fut.as_mut().poll(&mut cx).is_ready() { break; } sh.pend(); }
+                    } else {
+                        let mut fut = Box::pin(setm.remove(&key, &x, b));
+                        loop { if fut.as_mut().poll(&mut cx).is_ready() { break; } sh.pend(); }
+                    }
+                }
+                let mut g = sh.m.lock().unwrap();
+                let t = g.t;
+                if g.dcount != 2 && g.bad.is_none() { g.bad = Some(format!("write returned at an unexpected place (events {:?})", g.trace)); }
+                if !g.looked { g.log.push((format!("wlookup {t} obs=noapply"), None)); }
+                else if !g.applied && g.bad.is_none() { g.bad = Some(format!("write: in-place update without len() (events {:?})", g.trace)); }
+                if g.downgrade { g.log.push((format!("wdowngrade {t}"), None)); }
+                g.kind = 0; g.res = Some(Res::Wrote(batch)); g.st = WSt::Done;
+                sh.cv.notify_all();
+            }
+        }
+    }
+    WCTX.with(|c| *c.borrow_mut() = None);
+}
+
+struct CWorker { sh: Arc<WShared>, tx: std::sync::mpsc::Sender<Cmd>, join: Option<std::thread::JoinHandle<()>> }
+struct OpenB { b: Option<BatchBox>, epoch: u64, seq: u64 }
+struct HW { t: usize, x: u64, ins: bool, inv: u64, resp: u64 }
+struct HG { t: usize, inv: u64, resp: u64, set: BTreeSet<u64> }
+#[derive(Clone, Copy)]
+enum CurOp { G(usize), W(usize) }
+#[derive(Default, Clone)]
+struct CStats {
+    cases: u64, by_scenario: BTreeMap<String, u64>, parks: [u64; 9], gets: u64, gets_overlapping_a_write: u64, writes: u64, hits: u64, misses: u64, misses_after_cached: u64,
+    applies: u64, noapplies: u64, retries: u64, waits: u64, inst: u64, noinst: u64, commits: u64, notifies: u64, presses: u64, big_cases: u64, lines: u64, tasks: BTreeMap<u64, u64>,
+    gets_with_a_step_of_another_task_inside: u64, max_set: u64,
+}
+struct CEnv<S: SentinelCol> {
+    env: Env<S>, ws: Vec<CWorker>, wst: Vec<WSt>, bat: Vec<Option<OpenB>>, cur: Vec<Option<CurOp>>,
+    next_epoch: u64, expected: u64, submitted: BTreeSet<u64>, committed: u64, notified: u64,
+    lines: Vec<(String, String)>,
+    db0: BTreeSet<u64>, writes: Vec<HW>, gets: Vec<HG>,
+    writing: BTreeMap<u64, usize>, elem_epochs: BTreeMap<u64, BTreeSet<u64>>,
+    big: bool, cached_once: bool, st: CStats,
+}
+fn wait_stop(sh: &WShared) -> WSt {
+    let mut g = sh.m.lock().unwrap();
+    let t0 = Instant::now();
+    while g.st == WSt::Running {
+        let (g2, _) = sh.cv.wait_timeout(g, Duration::from_millis(100)).unwrap();
+        g = g2;
+        if t0.elapsed() > Duration::from_secs(15) { panic!("harness: gated worker {} neither parked nor finished (blocked on a lock held by a parked worker?); events of its operation: {:?}", g.t, g.trace); }
+    }
+    if let Some(b) = g.bad.take() { panic!("harness: gate positions inconsistent on worker {}: {b}", g.t); }
+    g.st
+}
+impl<S: SentinelCol> CEnv<S> {
+    fn new(cap: u64, tasks: usize, db0: &BTreeSet<u64>) -> Self {
+        let kv = HarnessKv::default();
+        kv.apply(db0.iter().map(|x| KvOp::InsM(TypeId::of::<SCol>(), CK, *x)).collect());
+        let env = Env::<S>::new(cap, kv);
+        let mut ws = vec![];
+        for t in 0..tasks {
+            let sh = WShared::new(t);
+            let (tx, rx) = std::sync::mpsc::channel();
+            let (sh2, setm) = (sh.clone(), env.setm.clone());
+            let join = std::thread::Builder::new().name(format!("c09-worker-{t}")).spawn(move || worker_main(sh2, rx, setm)).expect("spawn");
+            ws.push(CWorker { sh, tx, join: Some(join) });
+        }
+        let mut c = CEnv { env, ws, wst: vec![WSt::Idle; tasks], bat: (0..tasks).map(|_| None).collect(), cur: vec![None; tasks], next_epoch: 0, expected: 0, submitted: BTreeSet::new(), committed: 0, notified: 0,
+            lines: vec![], db0: db0.clone(), writes: vec![], gets: vec![], writing: BTreeMap::new(), elem_epochs: BTreeMap::new(), big: db0.len() > 900, cached_once: false, st: CStats::default() };
+        c.lines.push((format!("ccase thr=1024 tasks={tasks} db={}", fmt_set(db0)), "ok".into()));
+        *c.st.tasks.entry(tasks as u64).or_default() += 1;
+        if c.big { c.st.big_cases += 1; }
+        c
+    }
+    fn tick(&self) -> u64 { self.lines.len() as u64 }
+    fn line(&mut self, s: String) { self.lines.push((s, "ok".into())); }
+    /// in cases with a set around the threshold a worker is never parked while it holds the entry's read lock
+    /// (another writer's downgrade to `TooLarge` takes the write lock and would block outside any gate)
+    fn mask(&self, stops: u32) -> u32 { if self.big { stops & !(bit(Pt::R6) | bit(Pt::W2)) } else { stops } }
+    fn rstops(&self, rng: &mut Rng) -> u32 { let mut m = 0; for p in PT_ALL { if rng.chance(1, 2) { m |= bit(p); } } m }
+    fn idle(&self, t: usize) -> bool { self.wst[t] == WSt::Idle }
+    fn settle(&mut self, t: usize) -> WSt {
+        let sh = self.ws[t].sh.clone();
+        let st = wait_stop(&sh);
+        let (log, res) = { let mut g = sh.m.lock().unwrap(); let r = if st == WSt::Done { g.st = WSt::Idle; g.res.take() } else { None }; (std::mem::take(&mut g.log), r) };
+        for (l, a) in log {
+            if l.starts_with("glookup") { if l.ends_with("hit") { self.st.hits += 1; } else { self.st.misses += 1; if self.cached_once { self.st.misses_after_cached += 1; } } }
+            if l.starts_with("wlookup") { if l.ends_with("=apply") { self.st.applies += 1; } else { self.st.noapplies += 1; } }
+            if l.starts_with("gretry") { self.st.retries += 1; }
+            if l.starts_with("ginstall") { if l.ends_with("=inst") { self.st.inst += 1; self.cached_once = true; } else { self.st.noinst += 1; } }
+            self.lines.push((format!("cev {l}"), a.unwrap_or_else(|| "ok".into())));
+        }
+        if let WSt::Parked(p) = st { self.st.parks[p as usize] += 1; }
+        if st == WSt::Pending { self.st.waits += 1; }
+        self.wst[t] = if st == WSt::Done { WSt::Idle } else { st };
+        if st == WSt::Done {
+            let now = self.tick();
+            match (self.cur[t].take(), res) {
+                (Some(CurOp::G(i)), Some(Res::Got(s))) => { self.st.max_set = self.st.max_set.max(s.len() as u64); self.gets[i].resp = now; self.gets[i].set = s; }
+                (Some(CurOp::W(i)), Some(Res::Wrote(bb))) => {
+                    self.writes[i].resp = now;
+                    let x = self.writes[i].x;
+                    self.writing.remove(&x);
+                    self.bat[t].as_mut().expect("open batch").b = Some(bb);
+                }
+                _ => panic!("harness: worker {t} finished without a matching result"),
+            }
+        }
+        self.wst[t]
+    }
+    fn start_get(&mut self, t: usize, stops: u32) -> WSt {
+        assert!(self.idle(t));
+        let stops = self.mask(stops);
+        self.gets.push(HG { t, inv: self.tick(), resp: u64::MAX, set: BTreeSet::new() });
+        self.cur[t] = Some(CurOp::G(self.gets.len() - 1));
+        self.st.gets += 1;
+        { let mut g = self.ws[t].sh.m.lock().unwrap(); g.st = WSt::Running; }
+        self.ws[t].tx.send(Cmd::Get { stops }).expect("worker gone");
+        self.settle(t)
+    }
+    fn can_write(&self, t: usize, x: u64) -> bool {
+        if !self.idle(t) || self.writing.contains_key(&x) { return false; }
+        let Some(ob) = self.bat[t].as_ref() else { return false };
+        self.elem_epochs.get(&x).map_or(true, |es| es.iter().all(|e| *e <= ob.epoch))
+    }
+    fn start_write(&mut self, t: usize, x: u64, ins: bool, stops: u32) -> WSt {
+        assert!(self.can_write(t, x), "harness: generated a write of element {x} by task {t} that violates the usage assumption");
+        let stops = self.mask(stops);
+        let ob = self.bat[t].as_mut().unwrap();
+        let batch = ob.b.take().expect("batch is lent");
+        let epoch = ob.epoch;
+        self.writes.push(HW { t, x, ins, inv: self.tick(), resp: u64::MAX });
+        self.cur[t] = Some(CurOp::W(self.writes.len() - 1));
+        self.writing.insert(x, t);
+        self.elem_epochs.entry(x).or_default().insert(epoch);
+        self.st.writes += 1;
+        { let mut g = self.ws[t].sh.m.lock().unwrap(); g.st = WSt::Running; }
+        self.ws[t].tx.send(Cmd::Write { x, ins, batch, stops }).expect("worker gone");
+        self.settle(t)
+    }
+    /// releases a parked / waiting worker until its next gate in `stops`
+    fn step(&mut self, t: usize, stops: u32) -> WSt {
+        assert!(matches!(self.wst[t], WSt::Parked(_) | WSt::Pending));
+        let stops = self.mask(stops);
+        { let sh = &self.ws[t].sh; let mut g = sh.m.lock().unwrap(); g.stops = stops; g.go = true; g.st = WSt::Running; sh.cv.notify_all(); }
+        self.settle(t)
+    }
+    fn woken(&self, t: usize) -> bool { self.ws[t].sh.woken.load(Ordering::SeqCst) }
+    fn get_full(&mut self, t: usize) { let mut s = self.start_get(t, 0); let mut n = 0; while s != WSt::Idle { s = self.step(t, 0); n += 1; assert!(n < 50, "harness: an ungated get does not finish"); } }
+    fn write_full(&mut self, t: usize, x: u64, ins: bool) { let s = self.start_write(t, x, ins, 0); assert!(s == WSt::Idle); }
+    fn begin(&mut self, t: usize) {
+        assert!(self.idle(t) && self.bat[t].is_none());
+        let b = self.env.wm.as_ref().unwrap().new_write_batch();
+        let seq = SENT_NEXT.fetch_add(1, Ordering::SeqCst); // sentinel numbers must increase in commit (= creation) order
+        self.bat[t] = Some(OpenB { b: Some(BatchBox(Some(b))), epoch: self.next_epoch, seq });
+        self.next_epoch += 1;
+        self.line(format!("cev begin {t}"));
+    }
+    fn submit(&mut self, t: usize) {
+        assert!(self.idle(t));
+        let ob = self.bat[t].take().expect("no open batch");
+        let mut b = ob.b.expect("batch is lent").0.take().unwrap();
+        self.env.rt.block_on(self.env.sent.insert(SentKey(ob.seq), 0, &mut b)); // trailing sentinel of this batch
+        self.env.wm.as_ref().unwrap().submit_write_batch(b);
+        self.env.submitted += 1;
+        self.submitted.insert(ob.epoch);
+        self.line(format!("cev submit {t}"));
+    }
+    fn can_commit(&self) -> bool { self.submitted.contains(&self.expected) }
+    fn commit(&mut self) {
+        assert!(self.can_commit());
+        let n = self.env.kv.committed() + 1;
+        self.env.kv.allow_commits(1);
+        self.env.kv.wait_committed(n);
+        let e = self.expected;
+        self.submitted.remove(&e);
+        for es in self.elem_epochs.values_mut() { es.remove(&e); }
+        self.expected += 1; self.committed += 1; self.st.commits += 1;
+        self.line("cev commit".into());
+    }
+    fn can_notify(&self) -> bool { self.committed > self.notified }
+    fn notify(&mut self) {
+        assert!(self.can_notify());
+        ac_allow_one_and_wait();
+        self.notified += 1; self.env.notified += 1; self.st.notifies += 1;
+        self.line("cev notify".into());
+    }
+    fn press(&mut self, n: u64) {
+        for _ in 0..n { self.env.fresh += 1; let f = HKey(self.env.fresh); let _: Vec<u64> = self.env.rt.block_on(self.env.setm.get(&f)).collect(); }
+        self.st.presses += 1;
+        self.line(format!("cev press {n}"));
+    }
+    /// runs every operation in flight to completion (no gates)
+    fn finish_all(&mut self) {
+        for _ in 0..(4 * self.ws.len() + 8) {
+            for t in 0..self.ws.len() { if let WSt::Parked(_) = self.wst[t] { let mut n = 0; while let WSt::Parked(_) = self.step(t, 0) { n += 1; assert!(n < 50); } } }
+            for t in 0..self.ws.len() { if self.wst[t] == WSt::Pending { self.step(t, 0); } }
+            if (0..self.ws.len()).all(|t| self.idle(t)) { return; }
+        }
+        panic!("harness: operations in flight do not finish ({:?})", self.wst);
+    }
+    /// submits what is open, commits and notifies everything (optionally reading in between), then a quiescent get
+    fn drain(&mut self, rng: &mut Rng, reader: usize) {
+        self.finish_all();
+        for t in 0..self.ws.len() { if self.bat[t].is_some() { self.submit(t); } }
+        while self.can_commit() || self.can_notify() {
+            if self.can_commit() && (!self.can_notify() || rng.chance(1, 2)) { self.commit(); } else { self.notify(); }
+            if rng.chance(1, 4) { self.get_full(reader); }
+        }
+        assert!(self.submitted.is_empty(), "harness: a submitted batch can never be committed");
+        self.get_full(reader);
+    }
+    /// per-element regular semantics of every completed get (independent of the Lean model)
+    fn oracle(&mut self) -> Vec<Failure> {
+        let mut by_x: BTreeMap<u64, Vec<&HW>> = BTreeMap::new();
+        for w in &self.writes { by_x.entry(w.x).or_default().push(w); }
+        for v in by_x.values_mut() { v.sort_by_key(|w| w.inv); }
+        let mut fails = vec![];
+        for g in &self.gets {
+            if g.resp == u64::MAX { continue; }
+            let mut overl = false;
+            for (x, ws) in &by_x {
+                let mut base = self.db0.contains(x);
+                let mut allowed = [false, false];
+                let mut o = vec![];
+                for w in ws { if w.resp <= g.inv { base = w.ins; } else if w.inv < g.resp { allowed[usize::from(w.ins)] = true; o.push(format!("{}({x}) by task {} [{}..{}]", if w.ins { "insert" } else { "remove" }, w.t, w.inv, w.resp)); } }
+                allowed[usize::from(base)] = true;
+                if !o.is_empty() { overl = true; }
+                let has = g.set.contains(x);
+                if !allowed[usize::from(has)] {
+                    fails.push(Failure { sig: "conc-set-read-outside-regular-bounds".into(), desc: format!("get by task {} (lines {}..{}) returned {}: element {x} is {} although the last write of it that returned before the get was invoked says {} and the overlapping writes are [{}]",
+                        g.t, g.inv, g.resp, short(&fmt_set(&g.set)), if has { "present" } else { "absent" }, if base { "present" } else { "absent" }, o.join(", ")) });
+                }
+            }
+            // elements nobody wrote
+            let unwritten_db: BTreeSet<u64> = self.db0.iter().copied().filter(|x| !by_x.contains_key(x)).collect();
+            let unwritten_got: BTreeSet<u64> = g.set.iter().copied().filter(|x| !by_x.contains_key(x)).collect();
+            if unwritten_db != unwritten_got {
+                let d: Vec<u64> = unwritten_db.symmetric_difference(&unwritten_got).copied().take(8).collect();
+                fails.push(Failure { sig: "conc-set-read-outside-regular-bounds".into(), desc: format!("get by task {} (lines {}..{}) returned {}: elements {:?} were never written but differ from the initial store image", g.t, g.inv, g.resp, short(&fmt_set(&g.set)), d) });
+            }
+            if overl { self.st.gets_overlapping_a_write += 1; }
+            let inside = self.gets.iter().any(|h| !std::ptr::eq(h, g) && h.inv < g.resp && g.inv < h.resp) || overl;
+            if inside { self.st.gets_with_a_step_of_another_task_inside += 1; }
+        }
+        fails
+    }
+}
+impl<S: SentinelCol> Drop for CEnv<S> {
+    fn drop(&mut self) {
+        for w in &self.ws { let mut g = w.sh.m.lock().unwrap(); g.free = true; g.go = true; w.sh.cv.notify_all(); }
+        for w in &mut self.ws { let _ = w.tx.send(Cmd::Quit); }
+        for w in &mut self.ws { if let Some(j) = w.join.take() { let _ = j.join(); } }
+    }
+}
+
+// ---- scenarios (all random choices from the case's own Rng) ----
+fn steppable<S: SentinelCol>(c: &CEnv<S>, t: usize) -> bool { match c.wst[t] { WSt::Parked(_) => true, WSt::Pending => c.woken(t), _ => false } }
+/// advances random workers among `ts` (random gates) until all of them are idle
+fn run_out<S: SentinelCol>(c: &mut CEnv<S>, rng: &mut Rng, ts: &[usize]) {
+    let mut guard = 0;
+    loop {
+        guard += 1; assert!(guard < 600, "harness: workers {:?} do not finish ({:?})", ts, c.wst);
+        let busy: Vec<usize> = ts.iter().copied().filter(|t| !c.idle(*t)).collect();
+        if busy.is_empty() { return; }
+        let can: Vec<usize> = busy.iter().copied().filter(|t| steppable(c, *t)).collect();
+        if can.is_empty() { c.finish_all(); return; }
+        let t = *rng.pick(&can);
+        let s = c.rstops(rng); c.step(t, s);
+    }
+}
+/// 1. reader-fetch vs insert/remove at every gate position, then a later quiescent get by another worker
+fn scen1<S: SentinelCol>(c: &mut CEnv<S>, rng: &mut Rng) {
+    if rng.chance(1, 3) { c.get_full(2); }
+    c.begin(1);
+    let g = *rng.pick(&R_GATES);
+    let s = c.rstops(rng) | bit(g);
+    c.start_get(0, s);
+    let nw = rng.range(1, 3);
+    let (mut started, mut guard) = (0, 0);
+    loop {
+        guard += 1; assert!(guard < 400);
+        let (rb, wb) = (!c.idle(0), !c.idle(1));
+        if !wb && started < nw && (!rb || rng.chance(2, 3)) { let x = rng.range(1, 8); let ins = rng.chance(3, 5); let s = c.rstops(rng); c.start_write(1, x, ins, s); started += 1; continue; }
+        if !rb && !wb { break; }
+        let t = if rb && (!wb || rng.chance(1, 2)) { 0 } else { 1 };
+        let s = c.rstops(rng); c.step(t, s);
+    }
+    if rng.chance(2, 3) { c.get_full(2); }
+    c.drain(rng, 2);
+}
+/// 2. reader vs commit + after-commit flush at every reader gate
+fn scen2<S: SentinelCol>(c: &mut CEnv<S>, rng: &mut Rng) {
+    let pre = rng.chance(1, 2);
+    if pre { c.get_full(2); }
+    c.begin(1);
+    for _ in 0..rng.range(1, 4) { let x = rng.range(1, 6); let ins = rng.chance(1, 2); c.write_full(1, x, ins); }
+    if rng.chance(1, 3) { let x = rng.range(1, 6); c.write_full(1, x, true); c.write_full(1, x, false); if rng.chance(1, 2) { c.write_full(1, x, true); } }
+    c.submit(1);
+    if pre || rng.chance(1, 3) { let n = rng.range(40, 140); c.press(n); }
+    let mut s = c.rstops(rng); if s & 0x3f == 0 { s |= bit(*rng.pick(&R_GATES)); }
+    c.start_get(0, s);
+    let (mut bg, mut guard) = (0, 0);
+    while !c.idle(0) {
+        guard += 1; assert!(guard < 100);
+        if bg < 2 && rng.chance(1, 2) { if bg == 0 { c.commit(); } else { c.notify(); } bg += 1; continue; }
+        let s = c.rstops(rng); c.step(0, s);
+    }
+    if rng.chance(1, 2) { c.get_full(2); }
+    c.drain(rng, 2);
+}
+/// 3. eviction: a writer parked between its lookup and its in-place update while the entry is evicted and refetched
+fn scen3<S: SentinelCol>(c: &mut CEnv<S>, rng: &mut Rng) {
+    c.get_full(2);
+    c.begin(1);
+    let (x, ins) = (rng.range(1, 8), rng.chance(1, 2));
+    let s0 = bit(Pt::W2) | (c.rstops(rng) & (bit(Pt::W0) | bit(Pt::W1)));
+    let mut st = c.start_write(1, x, ins, s0);
+    while matches!(st, WSt::Parked(p) if p != Pt::W2) { st = c.step(1, bit(Pt::W2)); }
+    let n = rng.range(64, 200); c.press(n);
+    let s = c.rstops(rng); c.start_get(0, s);
+    run_out(c, rng, &[0, 1]);
+    c.get_full(2);
+    if rng.chance(1, 2) { let y = rng.range(1, 8); let ins = rng.chance(1, 2); let s = c.rstops(rng); c.start_write(1, y, ins, s); let s = c.rstops(rng); c.start_get(0, s); run_out(c, rng, &[0, 1]); }
+    c.drain(rng, 2);
+}
+/// 4. writers on different elements, batches created in one order and staged in the opposite order, a reader at the
+/// gates; one more element written by several batches sequentially in increasing epoch order
+fn scen4<S: SentinelCol>(c: &mut CEnv<S>, rng: &mut Rng) {
+    let nw = c.ws.len() - 1; let r = nw;
+    if rng.chance(1, 2) { c.get_full(r); }
+    for t in 0..nw { c.begin(t); }
+    let mut xs: Vec<u64> = (1..=8).collect(); rng.shuffle(&mut xs);
+    let s = c.rstops(rng); c.start_get(r, s);
+    for t in (0..nw).rev() {
+        let ins = rng.chance(2, 3);
+        let s = c.rstops(rng); c.start_write(t, xs[t], ins, s);
+        if rng.chance(1, 2) { run_out(c, rng, &[t]); } else { run_out(c, rng, &[t, r]); }
+        if c.idle(r) && rng.chance(1, 2) { let s = c.rstops(rng); c.start_get(r, s); }
+    }
+    let y = xs[nw];
+    for t in 0..nw {
+        if rng.chance(2, 3) { let ins = rng.chance(1, 2); let s = c.rstops(rng); c.start_write(t, y, ins, s); run_out(c, rng, &[t]); if c.idle(r) && rng.chance(1, 2) { let s = c.rstops(rng); c.start_get(r, s); } }
+    }
+    run_out(c, rng, &(0..=nw).collect::<Vec<_>>());
+    let mut order: Vec<usize> = (0..nw).collect(); rng.shuffle(&mut order);
+    for t in order {
+        c.submit(t);
+        while c.can_commit() && rng.chance(1, 2) { c.commit(); if rng.chance(1, 2) && c.can_notify() { c.notify(); } }
+        if rng.chance(1, 2) { let s = c.rstops(rng); c.start_get(r, s); let mut guard = 0; while !c.idle(r) { guard += 1; assert!(guard < 100); if c.can_commit() && rng.chance(1, 3) { c.commit(); } else if c.can_notify() && rng.chance(1, 3) { c.notify(); } else { let s = c.rstops(rng); c.step(r, s); } } }
+    }
+    c.drain(rng, r);
+}
+/// 5. waiter path: two (three) readers miss together, one works (parked around its scan), the others wait, a writer
+/// stages in between
+fn scen5<S: SentinelCol>(c: &mut CEnv<S>, rng: &mut Rng) {
+    let pre_begin = rng.chance(1, 2);
+    if pre_begin { c.begin(2); }
+    let g = if rng.chance(1, 2) { Pt::R3 } else { Pt::R4 };
+    c.start_get(0, bit(g));
+    let mut readers = vec![0usize, 1];
+    if c.ws.len() > 3 { readers.push(3); }
+    for &t in &readers[1..] {
+        let s1 = c.rstops(rng) & (bit(Pt::R0) | bit(Pt::R1) | bit(Pt::R2));
+        let mut st = c.start_get(t, s1);
+        while let WSt::Parked(_) = st { st = c.step(t, 0); }
+    }
+    if !pre_begin { c.begin(2); }
+    for _ in 0..rng.range(1, 2) { let (x, ins) = (rng.range(1, 8), rng.chance(2, 3)); let s = c.rstops(rng); c.start_write(2, x, ins, s); run_out(c, rng, &[2]); }
+    if rng.chance(1, 3) { c.submit(2); c.commit(); if rng.chance(1, 2) { c.notify(); } }
+    run_out(c, rng, &readers);
+    c.drain(rng, 1);
+}
+/// 6. "the whole set is not atomic": the read returns {a,b} although the set was never {a,b}
+fn scen6<S: SentinelCol>(c: &mut CEnv<S>, rng: &mut Rng) {
+    let a = rng.range(1, 4); let b = a + rng.range(1, 4);
+    c.begin(1); c.write_full(1, a, true);
+    c.start_get(0, bit(Pt::R3));
+    c.write_full(1, a, false); c.write_full(1, b, true); c.submit(1); c.commit();
+    if rng.chance(1, 2) { c.notify(); }
+    run_out(c, rng, &[0]);
+    c.drain(rng, 1);
+}
+/// 7. random gated walk
+fn scen7<S: SentinelCol>(c: &mut CEnv<S>, rng: &mut Rng) {
+    let n = c.ws.len();
+    let steps = rng.range(20, 70);
+    let elems: Vec<u64> = if c.big { let m = c.db0.len() as u64; vec![1, 2, 3, m - 1, m, m + 1, m + 2, m + 3, m + 4, m + 5] } else { (1..=8).collect() };
+    if rng.chance(1, 2) { let t = rng.below(n as u64) as usize; c.get_full(t); }
+    for _ in 0..steps {
+        let mut acts: Vec<(u32, usize)> = vec![];
+        for t in 0..n {
+            match c.wst[t] {
+                WSt::Parked(_) => for _ in 0..4 { acts.push((0, t)); },
+                WSt::Pending => if c.woken(t) { for _ in 0..4 { acts.push((0, t)); } },
+                WSt::Idle => {
+                    acts.push((1, t)); acts.push((1, t));
+                    if c.bat[t].is_some() { for _ in 0..3 { acts.push((2, t)); } acts.push((4, t)); } else { acts.push((3, t)); acts.push((3, t)); }
+                }
+                _ => {}
+            }
+        }
+        if c.can_commit() { acts.push((5, 0)); acts.push((5, 0)); }
+        if c.can_notify() { acts.push((6, 0)); acts.push((6, 0)); }
+        acts.push((7, 0));
+        let (k, t) = *rng.pick(&acts);
+        match k {
+            0 => { let s = c.rstops(rng); c.step(t, s); }
+            1 => { let s = c.rstops(rng); c.start_get(t, s); }
+            2 => {
+                let can: Vec<u64> = elems.iter().copied().filter(|x| c.can_write(t, *x)).collect();
+                if !can.is_empty() { let x = *rng.pick(&can); let ins = rng.chance(1, 2); let s = c.rstops(rng); c.start_write(t, x, ins, s); }
+            }
+            3 => c.begin(t),
+            4 => c.submit(t),
+            5 => c.commit(),
+            6 => c.notify(),
+            _ => { let k = rng.range(8, 90); c.press(k); }
+        }
+    }
+    let r = rng.below(n as u64) as usize;
+    c.drain(rng, r);
+}
+
+struct GatedOut { lines: Vec<(String, String)>, fails: Vec<Failure>, st: CStats, scen: String }
+fn case_rng(seed: u64, idx: u64) -> Rng { Rng::new(seed.wrapping_mul(0x0100_0000_01b3).wrapping_add(idx.wrapping_mul(0x9E37_79B9)) ^ (idx << 32)) }
+fn gated_case<S: SentinelCol>(seed: u64, idx: u64) -> GatedOut {
+    let mut rng = case_rng(seed, idx);
+    let scen = match idx % 10 { 0 | 6 => 1, 1 | 7 => 2, 2 => 3, 3 => 4, 4 => 5, 5 => 6, _ => 7 };
+    let big = scen == 7 && idx % 50 == 9;
+    let cap = rng.range(1, 4);
+    let db0: BTreeSet<u64> = if big { (1..=rng.range(1020, 1030)).collect() } else if scen == 6 { BTreeSet::new() } else { (1..=6).filter(|_| rng.chance(1, 2)).collect() };
+    let tasks = match scen { 1 | 2 | 3 => 3, 4 => rng.range(3, 4) as usize, 5 => rng.range(3, 4) as usize, 6 => 2, _ => rng.range(2, 4) as usize };
+    let mut c = CEnv::<S>::new(cap, tasks, &db0);
+    match scen { 1 => scen1(&mut c, &mut rng), 2 => scen2(&mut c, &mut rng), 3 => scen3(&mut c, &mut rng), 4 => scen4(&mut c, &mut rng), 5 => scen5(&mut c, &mut rng), 6 => scen6(&mut c, &mut rng), _ => scen7(&mut c, &mut rng) }
+    c.line("cend".into());
+    let fails = c.oracle();
+    let name = ["", "reader-vs-writer", "reader-vs-commit-flush", "eviction-orphan-apply", "writers-reverse-staging", "single-flight-waiter", "whole-set-not-atomic", "random-walk"][scen];
+    c.st.cases = 1; c.st.lines = c.lines.len() as u64;
+    *c.st.by_scenario.entry(name.to_string()).or_default() += 1;
+    GatedOut { lines: std::mem::take(&mut c.lines), fails, st: c.st.clone(), scen: name.to_string() }
+}
+impl CStats {
+    fn add(&mut self, o: &CStats) {
+        self.cases += o.cases; for (k, v) in &o.by_scenario { *self.by_scenario.entry(k.clone()).or_default() += v; } for i in 0..9 { self.parks[i] += o.parks[i]; }
+        self.gets += o.gets; self.gets_overlapping_a_write += o.gets_overlapping_a_write; self.writes += o.writes; self.hits += o.hits; self.misses += o.misses; self.misses_after_cached += o.misses_after_cached;
+        self.applies += o.applies; self.noapplies += o.noapplies; self.retries += o.retries; self.waits += o.waits; self.inst += o.inst; self.noinst += o.noinst; self.commits += o.commits; self.notifies += o.notifies;
+        self.presses += o.presses; self.big_cases += o.big_cases; self.lines += o.lines; for (k, v) in &o.tasks { *self.tasks.entry(*k).or_default() += v; }
+        self.gets_with_a_step_of_another_task_inside += o.gets_with_a_step_of_another_task_inside; self.max_set = self.max_set.max(o.max_set);
+    }
+    fn json(&self, harness_errors: u64) -> String {
+        let parks = (0..9).map(|i| format!("\"{}\":{}", PT_NAMES[i], self.parks[i])).collect::<Vec<_>>().join(",");
+        let scen = self.by_scenario.iter().map(|(k, v)| format!("{}:{}", jstr(k), v)).collect::<Vec<_>>().join(",");
+        let tasks = self.tasks.iter().map(|(k, v)| format!("\"{k}\":{v}")).collect::<Vec<_>>().join(",");
+        format!("{{\"cases\":{},\"scenarios\":{{{}}},\"tasks_histogram\":{{{}}},\"lines\":{},\"parks_at_gate\":{{{}}},\"gets\":{},\"gets_overlapping_a_write\":{},\"gets_overlapping_another_operation\":{},\"writes\":{},\"get_lookup_hits\":{},\"get_lookup_misses\":{},\"get_lookup_misses_after_an_install\":{},\"write_lookup_apply\":{},\"write_lookup_noapply\":{},\"single_flight_waits\":{},\"single_flight_retries\":{},\"installs\":{},\"installs_refused_or_occupied\":{},\"commits\":{},\"notifies\":{},\"presses\":{},\"cases_around_threshold\":{},\"max_set_size\":{},\"harness_errors\":{}}}",
+            self.cases, scen, tasks, self.lines, parks, self.gets, self.gets_overlapping_a_write, self.gets_with_a_step_of_another_task_inside, self.writes, self.hits, self.misses, self.misses_after_cached, self.applies, self.noapplies, self.waits, self.retries, self.inst, self.noinst, self.commits, self.notifies, self.presses, self.big_cases, self.max_set, harness_errors)
+    }
+}
+/// start-up calibration of the gate positions; an `Err` means the code under test no longer calls into the harness in the order the gates rely on
+fn calibrate_gates<S: SentinelCol>() -> Result<(), String> {
+    let r = std::panic::catch_unwind(|| -> Result<(), String> {
+        let db: BTreeSet<u64> = [1u64, 2].into_iter().collect();
+        let mut c = CEnv::<S>::new(64, 2, &db);
+        let tr = |c: &CEnv<S>, t: usize| -> Vec<&'static str> { c.ws[t].sh.m.lock().unwrap().trace.clone() };
+        let check = |what: &str, got: Vec<&'static str>, want: &[&str]| -> Result<(), String> { if got == want { Ok(()) } else { Err(format!("{what}: calls into the harness {:?}, expected {:?}", got, want)) } };
+        c.get_full(0);
+        check("solo get (miss)", tr(&c, 0), &["h", "h", "h", "default", "scanB", "scanA", "ins", "ins", "h", "ssclone", "iter"])?;
+        if !c.lines.iter().any(|(l, _)| l == "cev ginstall 0 obs=inst") { return Err(format!("solo get (miss): the install was not observed ({:?})", c.lines)); }
+        c.get_full(0);
+        check("solo get (hit)", tr(&c, 0), &["h", "h", "ssclone", "iter"])?;
+        c.begin(0);
+        c.write_full(0, 5, true);
+        check("solo insert (set cached)", tr(&c, 0), &["h", "h", "ins", "len"])?;
+        c.write_full(0, 1, false);
+        check("solo remove (set cached)", tr(&c, 0), &["h", "h", "rem", "len"])?;
+        let mut seq = vec![];
+        let mut st = c.start_get(1, 0x1ff);
+        while st != WSt::Idle { seq.push(st); st = c.step(1, 0x1ff); }
+        if seq != [WSt::Parked(Pt::R0), WSt::Parked(Pt::R1), WSt::Parked(Pt::R6)] { return Err(format!("gated get (hit) parked at {:?}", seq)); }
+        if c.gets.last().map(|g| fmt_set(&g.set)) != Some("2,5".into()) { return Err(format!("gated get returned {:?}", c.gets.last().map(|g| fmt_set(&g.set)))); }
+        let mut seq = vec![];
+        let mut st = c.start_write(0, 7, true, 0x1ff);
+        while st != WSt::Idle { seq.push(st); st = c.step(0, 0x1ff); }
+        if seq != [WSt::Parked(Pt::W0), WSt::Parked(Pt::W1), WSt::Parked(Pt::W2)] { return Err(format!("gated insert parked at {:?}", seq)); }
+        let mut rng = Rng::new(1);
+        c.drain(&mut rng, 1);
+        drop(c);
+        // miss path with every gate, and the waiter of the single flight
+        let mut c = CEnv::<S>::new(64, 2, &db);
+        let mut seq = vec![];
+        let mut st = c.start_get(0, 0x1ff);
+        while st != WSt::Parked(Pt::R4) && seq.len() < 12 { seq.push(st); st = c.step(0, 0x1ff); }
+        if seq != [WSt::Parked(Pt::R0), WSt::Parked(Pt::R1), WSt::Parked(Pt::R2), WSt::Parked(Pt::R3)] { return Err(format!("gated get (miss) parked at {:?} before the scan returned", seq)); }
+        let st1 = c.start_get(1, 0);
+        if st1 != WSt::Pending || c.woken(1) { return Err(format!("second get during a fetch: {:?} (expected to wait in the single flight)", st1)); }
+        let mut seq = vec![];
+        let mut st = c.step(0, 0x1ff);
+        while st != WSt::Idle { seq.push(st); st = c.step(0, 0x1ff); }
+        if seq != [WSt::Parked(Pt::R6)] { return Err(format!("gated get (miss) parked at {:?} after the scan", seq)); }
+        if !c.woken(1) { return Err("the waiter of the single flight was not woken".into()); }
+        if c.step(1, 0) != WSt::Idle { return Err("the waiter of the single flight did not finish".into()); }
+        if !c.lines.iter().any(|(l, _)| l == "cev gretry 1") || !c.lines.iter().any(|(l, _)| l == "cev glookup 1 obs=hit") { return Err(format!("waiter: no retry / hit observed ({:?})", c.lines)); }
+        Ok(())
+    });
+    match r { Ok(x) => x, Err(e) => Err(e.downcast_ref::<String>().cloned().or_else(|| e.downcast_ref::<&str>().map(|s| s.to_string())).unwrap_or_else(|| "panic".into())) }
+}
+fn conc_gated_main<S: SentinelCol>(a: &qbice_verif_harness::Args, mut out: Out) {
+    if let Err(e) = calibrate_gates::<S>() { eprintln!("harness: --conc-gated calibration failed: {e}"); std::process::exit(2); }
+    let mut todo: Vec<(u64, u64)> = vec![];
+    if let Some(p) = &a.replay {
+        let raw = std::fs::read_to_string(p).expect("replay file");
+        let text = if raw.trim_start().starts_with('{') { extract_case(&raw).expect("replay json has no \"case\"") } else { raw };
+        let h = text.lines().next().unwrap_or("");
+        let f = |k: &str| -> Option<u64> { h.split_whitespace().find_map(|t| t.strip_prefix(k))?.parse().ok() };
+        match (f("seed="), f("case=")) { (Some(s), Some(i)) if h.starts_with("conc-gated") => todo.push((s, i)), _ => { eprintln!("harness: not a --conc-gated case (first line must be `conc-gated seed=N case=I`)"); std::process::exit(2); } }
+    } else {
+        let n = a.n.unwrap_or(if a.tier == "quick" { 500 } else { 5000 });
+        for i in 0..n { todo.push((a.seed, i)); }
+    }
+    let mut st = CStats::default();
+    let (mut evals, mut nontrivial, mut harness_errors) = (0u64, 0u64, 0u64);
+    let mut distinct = std::collections::HashSet::new();
+    let mut samples: Vec<String> = vec![];
+    let mut fails_json: Vec<String> = vec![];
+    for (seed, idx) in todo {
+        evals += 1;
+        let head = format!("conc-gated seed={seed} case={idx}");
+        match std::panic::catch_unwind(|| gated_case::<S>(seed, idx)) {
+            Ok(g) => {
+                for (o, i) in &g.lines { out.line(o, i); }
+                st.add(&g.st);
+                let text = g.lines.iter().map(|(o, _)| o.as_str()).collect::<Vec<_>>().join("\n");
+                let nt = g.st.parks.iter().sum::<u64>() > 0 && g.st.writes > 0 && g.st.gets_with_a_step_of_another_task_inside > 0;
+                if nt && distinct.insert(text.clone()) { nontrivial += 1; }
+                if nt && samples.len() < 3 && idx % 3 == 0 { samples.push(short(&format!("[{}] {}", g.scen, text.replace('\n', "; ")))); }
+                let mut seen = std::collections::HashSet::new();
+                for f in g.fails { if seen.insert(f.sig.clone()) { fails_json.push(format!("{{\"sig\":{},\"desc\":{},\"case\":{}}}", jstr(&f.sig), jstr(&format!("[{}] {}", g.scen, f.desc)), jstr(&format!("{head}\n{text}")))); } }
+            }
+            Err(e) => {
+                harness_errors += 1;
+                let msg = e.downcast_ref::<String>().cloned().or_else(|| e.downcast_ref::<&str>().map(|s| s.to_string())).unwrap_or_default();
+                fails_json.push(format!("{{\"sig\":\"panic\",\"desc\":{},\"case\":{}}}", jstr(&format!("panic while running the gated case: {msg}")), jstr(&head)));
+            }
+        }
+    }
+    let report = format!("{{\"evaluations\":{},\"distinct_nontrivial\":{},\"rule\":{},\"samples\":[{}],\"distribution\":{},\"oracle_failures\":[{}]}}",
+        evals, nontrivial, jstr("gated schedule in which a worker was parked at a gate at least once, with at least one write and at least one get that overlaps another task's operation"),
+        samples.iter().map(|s| jstr(s)).collect::<Vec<_>>().join(","), st.json(harness_errors), fails_json.join(","));
+    out.finish(&report);
+}
+
+// ------------------------------------------------------------------------------------------------
+// --conc-stress: free-running threads on the real set cache, judged by the per-element regular-semantics oracle only
+// ------------------------------------------------------------------------------------------------
+thread_local! { static TL_FETCH: std::cell::Cell<(u64, u64)> = const { std::cell::Cell::new((0, 0)) }; } // (sets created, store scans) on this thread
+fn tl_note(created: bool) { let _ = TL_FETCH.try_with(|c| { let (a, b) = c.get(); c.set(if created { (a + 1, b) } else { (a, b + 1) }); }); }
+static STRESS_TICK: AtomicU64 = AtomicU64::new(1);
+struct SOp { thread: usize, key: u64, kind: u8, x: u64, inv: u64, resp: u64, set: BTreeSet<u64>, fetched: bool, streamed: bool }
+#[derive(Default)]
+struct SStats { rounds: u64, threads: BTreeMap<u64, u64>, caps: BTreeMap<u64, u64>, gets: u64, gets_overlapping_a_write: u64, elements_decided_by_overlap: u64, writes: u64, fetches: u64, refetches_after_eviction: u64, streaming_reads: u64, in_memory_reads: u64,
+    batches: u64, fresh_key_reads: u64, final_gets: u64, big_rounds: u64, max_set: u64 }
+fn stress_round<S: SentinelCol>(rng: &mut Rng, nops: u64, st: &mut SStats) -> Vec<Failure> {
+    let nthreads = rng.range(4, 8) as usize;
+    let nkeys = rng.range(2, 3);
+    let cap = rng.range(1, 4);
+    let big = rng.chance(1, 4);
+    let per = 4u64; // elements owned by a thread in every key: i, i+n, i+2n, i+3n
+    let kv = HarnessKv::default();
+    let mut db0: BTreeMap<u64, BTreeSet<u64>> = BTreeMap::new();
+    for k in 1..=nkeys {
+        let s: BTreeSet<u64> = if big && k == 1 { (0..rng.range(1020, 1040)).collect() } else { (0..(nthreads as u64 * per)).filter(|_| rng.chance(1, 2)).collect() };
+        kv.apply(s.iter().map(|x| KvOp::InsM(TypeId::of::<SCol>(), k, *x)).collect());
+        db0.insert(k, s);
+    }
+    let mut env = Env::<S>::new(cap, kv.clone());
+    st.rounds += 1; *st.threads.entry(nthreads as u64).or_default() += 1; *st.caps.entry(cap).or_default() += 1; if big { st.big_rounds += 1; }
+    let begin_lock = Mutex::new(());
+    let nbatches = AtomicU64::new(0);
+    let fresh = AtomicU64::new(5_000_000);
+    let fresh_reads = AtomicU64::new(0);
+    let stop = std::sync::atomic::AtomicBool::new(false);
+    let seeds: Vec<u64> = (0..nthreads).map(|_| rng.next()).collect();
+    let pacer_seed = rng.next();
+    let setm = env.setm.clone();
+    let (wm, sent) = (env.wm.as_ref().unwrap(), &env.sent);
+    let mut all: Vec<SOp> = vec![];
+    let mut thread_panics = 0;
+    std::thread::scope(|sc| {
+        let pacer = {
+            let (kv, stop) = (kv.clone(), &stop);
+            sc.spawn(move || {
+                let mut r = Rng::new(pacer_seed);
+                while !stop.load(Ordering::SeqCst) {
+                    if r.chance(1, 2) {
+                        // both gates wide open for a while
+                        { kv.0.gate.lock().unwrap().open = true; kv.0.gate_cv.notify_all(); }
+                        { AC.lock().unwrap().open = true; AC_CV.notify_all(); }
+                        std::thread::sleep(Duration::from_micros(r.range(200, 3000)));
+                        { kv.0.gate.lock().unwrap().open = false; }
+                        { AC.lock().unwrap().open = false; }
+                    } else {
+                        // a trickle of single permits
+                        for _ in 0..r.range(1, 6) {
+                            if r.chance(1, 2) { kv.allow_commits(1); } else { let mut g = AC.lock().unwrap(); g.permits += 1; AC_CV.notify_all(); }
+                            std::thread::sleep(Duration::from_micros(r.range(20, 600)));
+                        }
+                    }
+                }
+            })
+        };
+        let mut hs = vec![];
+        for i in 0..nthreads {
+            let (setm, begin_lock, nbatches, fresh, fresh_reads, seed) = (setm.clone(), &begin_lock, &nbatches, &fresh, &fresh_reads, seeds[i]);
+            hs.push(std::thread::Builder::new().name(format!("c09-stress-{i}")).spawn_scoped(sc, move || {
+                let rt = tokio::runtime::Builder::new_current_thread().build().unwrap();
+                let mut r = Rng::new(seed);
+                let mut ops: Vec<SOp> = Vec::with_capacity(nops as usize);
+                let mut open: Option<(BatchBox, u64, u64)> = None; // batch, sentinel number, operations in it
+                for _ in 0..nops {
+                    let k = r.range(1, nkeys);
+                    match r.below(100) {
+                        0..=39 => {
+                            let (c0, s0) = TL_FETCH.with(|c| c.get());
+                            let inv = STRESS_TICK.fetch_add(1, Ordering::SeqCst);
+                            let set: BTreeSet<u64> = rt.block_on(setm.get(&HKey(k))).collect();
+                            let resp = STRESS_TICK.fetch_add(1, Ordering::SeqCst);
+                            let (c1, s1) = TL_FETCH.with(|c| c.get());
+                            ops.push(SOp { thread: i, key: k, kind: 0, x: 0, inv, resp, set, fetched: c1 > c0, streamed: c1 == c0 && s1 > s0 });
+                        }
+                        40..=74 => {
+                            if open.is_none() {
+                                let _g = begin_lock.lock().unwrap(); // sentinel numbers must increase in epoch order
+                                let b = wm.new_write_batch();
+                                open = Some((BatchBox(Some(b)), SENT_NEXT.fetch_add(1, Ordering::SeqCst), 0));
+                            }
+                            let x = i as u64 + nthreads as u64 * r.below(per);
+                            let ins = r.chance(1, 2);
+                            let ob = open.as_mut().unwrap();
+                            let b = ob.0 .0.as_mut().unwrap();
+                            let inv = STRESS_TICK.fetch_add(1, Ordering::SeqCst);
+                            if ins { rt.block_on(setm.insert(HKey(k), x, b)); } else { rt.block_on(setm.remove(&HKey(k), &x, b)); }
+                            let resp = STRESS_TICK.fetch_add(1, Ordering::SeqCst);
+                            ob.2 += 1;
+                            ops.push(SOp { thread: i, key: k, kind: if ins { 1 } else { 2 }, x, inv, resp, set: BTreeSet::new(), fetched: false, streamed: false });
+                        }
+                        75..=84 => {
+                            if let Some((mut bb, seq, _)) = open.take() {
+                                let mut b = bb.0.take().unwrap();
+                                rt.block_on(sent.insert(SentKey(seq), 0, &mut b));
+                                wm.submit_write_batch(b);
+                                nbatches.fetch_add(1, Ordering::SeqCst);
+                            }
+                        }
+                        85..=94 => {
+                            for _ in 0..r.range(1, 12) { let f = fresh.fetch_add(1, Ordering::SeqCst); let _: Vec<u64> = rt.block_on(setm.get(&HKey(f))).collect(); fresh_reads.fetch_add(1, Ordering::SeqCst); }
+                        }
+                        _ => { if r.chance(1, 2) { std::thread::yield_now(); } else { std::thread::sleep(Duration::from_micros(r.range(1, 200))); } }
+                    }
+                }
+                if let Some((mut bb, seq, _)) = open.take() {
+                    let mut b = bb.0.take().unwrap();
+                    rt.block_on(sent.insert(SentKey(seq), 0, &mut b));
+                    wm.submit_write_batch(b);
+                    nbatches.fetch_add(1, Ordering::SeqCst);
+                }
+                ops
+            }).expect("spawn"));
+        }
+        for h in hs { match h.join() { Ok(o) => all.extend(o), Err(_) => thread_panics += 1 } }
+        stop.store(true, Ordering::SeqCst);
+        let _ = pacer.join();
+    });
+    // drain the pipeline completely: every batch committed, then the after-commit thread quiet (its per-batch counter
+    // `done` is not exact here: TinyLFU maintenance on that thread may hash the sentinel key of a LATER batch early)
+    let nb = nbatches.load(Ordering::SeqCst);
+    kv.open_gate(); ac_open();
+    let t0 = Instant::now();
+    while kv.committed() < nb {
+        if t0.elapsed() > Duration::from_secs(30) { panic!("harness: stress pipeline does not drain (batches {nb}, committed {}, thread panics {thread_panics})", kv.committed()); }
+        std::thread::sleep(Duration::from_millis(1));
+    }
+    let (mut last, mut quiet) = (AC_CALLS.load(Ordering::SeqCst), Instant::now());
+    while quiet.elapsed() < Duration::from_millis(30) {
+        std::thread::sleep(Duration::from_millis(2));
+        let c = AC_CALLS.load(Ordering::SeqCst);
+        if c != last { last = c; quiet = Instant::now(); }
+        if t0.elapsed() > Duration::from_secs(40) { panic!("harness: the after-commit thread never gets quiet"); }
+    }
+    if thread_panics > 0 { panic!("harness: {thread_panics} stress thread(s) panicked"); }
+    st.batches += nb; st.fresh_key_reads += fresh_reads.load(Ordering::SeqCst);
+    // oracle
+    let mut fails = vec![];
+    let mut by: BTreeMap<(u64, u64), Vec<&SOp>> = BTreeMap::new();
+    for o in all.iter().filter(|o| o.kind != 0) { by.entry((o.key, o.x)).or_default().push(o); }
+    for v in by.values_mut() {
+        v.sort_by_key(|o| o.inv);
+        for w in v.windows(2) { if w[0].resp > w[1].inv || w[0].thread != w[1].thread { panic!("harness: stress generated overlapping writes of one element"); } }
+    }
+    let mut fetched_before: BTreeSet<u64> = BTreeSet::new();
+    let mut gets: Vec<&SOp> = all.iter().filter(|o| o.kind == 0).collect();
+    gets.sort_by_key(|o| o.inv);
+    for g in gets {
+        st.gets += 1; st.max_set = st.max_set.max(g.set.len() as u64);
+        if g.fetched { st.fetches += 1; if !fetched_before.insert(g.key) { st.refetches_after_eviction += 1; } } else if g.streamed { st.streaming_reads += 1; } else { st.in_memory_reads += 1; }
+        let init = &db0[&g.key];
+        let mut overl = false;
+        let universe: BTreeSet<u64> = init.iter().chain(g.set.iter()).copied().chain(by.keys().filter(|(k, _)| *k == g.key).map(|(_, x)| *x)).collect();
+        for x in universe {
+            let mut base = init.contains(&x);
+            let mut allowed = [false, false];
+            let mut o = vec![];
+            if let Some(ws) = by.get(&(g.key, x)) {
+                for w in ws { if w.resp < g.inv { base = w.kind == 1; } else if w.inv < g.resp { allowed[usize::from(w.kind == 1)] = true; o.push(format!("{}({x}) by thread {} [{}..{}]", if w.kind == 1 { "insert" } else { "remove" }, w.thread, w.inv, w.resp)); } }
+            }
+            if !o.is_empty() { overl = true; if allowed[0] != allowed[1] && allowed[usize::from(base)] == false { st.elements_decided_by_overlap += 1; } }
+            allowed[usize::from(base)] = true;
+            let has = g.set.contains(&x);
+            if !allowed[usize::from(has)] && fails.len() < 5 {
+                let hist: Vec<String> = by.get(&(g.key, x)).map(|ws| ws.iter().map(|w| format!("{}[{}..{}]", if w.kind == 1 { "ins" } else { "rem" }, w.inv, w.resp)).collect()).unwrap_or_default();
+                fails.push(Failure { sig: "conc-stress-set-read-outside-regular-bounds".into(), desc: format!("threads={nthreads} cap={cap} keys={nkeys}: get of key {} by thread {} [{}..{}] ({}) returned {}: element {x} is {} although the last write of it that returned before the get was invoked says {} and the overlapping writes are [{}]; all writes of the element: {}",
+                    g.key, g.thread, g.inv, g.resp, if g.fetched { "fetch" } else if g.streamed { "streaming" } else { "in-memory" }, short(&fmt_set(&g.set)), if has { "present" } else { "absent" }, if base { "present" } else { "absent" }, o.join(", "), short(&hist.join(" "))) });
+            }
+        }
+        if overl { st.gets_overlapping_a_write += 1; }
+    }
+    st.writes += all.iter().filter(|o| o.kind != 0).count() as u64;
+    // final quiescent state
+    for k in 1..=nkeys {
+        let mut want = db0[&k].clone();
+        for ((kk, x), ws) in &by { if *kk == k { if ws.last().unwrap().kind == 1 { want.insert(*x); } else { want.remove(x); } } }
+        let got: BTreeSet<u64> = env.rt.block_on(env.setm.get(&HKey(k))).collect();
+        st.final_gets += 1;
+        if got != want {
+            let d: Vec<u64> = got.symmetric_difference(&want).copied().take(8).collect();
+            fails.push(Failure { sig: "conc-stress-final-set-differs".into(), desc: format!("threads={nthreads} cap={cap} keys={nkeys}: after all threads were joined and the write pipeline drained, get of key {k} returned {} but the last writes say {} (differing elements {:?})", short(&fmt_set(&got)), short(&fmt_set(&want)), d) });
+        }
+    }
+    env.shutdown();
+    fails
+}
+fn conc_stress_main<S: SentinelCol>(a: &qbice_verif_harness::Args, out: Out) {
+    let (rounds, nops) = if a.tier == "quick" { (a.n.unwrap_or(10), 500) } else { (a.n.unwrap_or(100), 600) };
+    let mut st = SStats::default();
+    let mut fails_json: Vec<String> = vec![];
+    let (mut evals, mut harness_errors) = (0u64, 0u64);
+    let mut seen = std::collections::HashSet::new();
+    for i in 0..rounds {
+        evals += 1;
+        let mut rng = case_rng(a.seed ^ 0x5712e55, i);
+        let r = std::panic::catch_unwind(std::panic::AssertUnwindSafe(|| stress_round::<S>(&mut rng, nops, &mut st)));
+        let case = format!("conc-stress seed={} round={i} tier={} (free-running threads: re-run `cache --conc-stress --seed {} --tier {}`; the interleaving itself is not replayable)", a.seed, a.tier, a.seed, a.tier);
+        match r {
+            Ok(fs) => { for f in fs { if seen.insert(f.sig.clone()) { fails_json.push(format!("{{\"sig\":{},\"desc\":{},\"case\":{}}}", jstr(&f.sig), jstr(&f.desc), jstr(&case))); } } }
+            Err(e) => {
+                harness_errors += 1;
+                let msg = e.downcast_ref::<String>().cloned().or_else(|| e.downcast_ref::<&str>().map(|s| s.to_string())).unwrap_or_default();
+                fails_json.push(format!("{{\"sig\":\"panic\",\"desc\":{},\"case\":{}}}", jstr(&format!("panic in the stress round: {msg}")), jstr(&case)));
+            }
+        }
+    }
+    let h = |m: &BTreeMap<u64, u64>| m.iter().map(|(k, v)| format!("\"{k}\":{v}")).collect::<Vec<_>>().join(",");
+    let dist = format!("{{\"rounds\":{},\"threads_histogram\":{{{}}},\"capacity_histogram\":{{{}}},\"rounds_with_a_set_around_the_threshold\":{},\"gets\":{},\"gets_overlapping_a_write\":{},\"writes\":{},\"batches\":{},\"fetches\":{},\"refetches_after_eviction\":{},\"streaming_reads\":{},\"in_memory_reads\":{},\"fresh_key_reads\":{},\"final_quiescent_gets\":{},\"max_set_size\":{},\"harness_errors\":{}}}",
+        st.rounds, h(&st.threads), h(&st.caps), st.big_rounds, st.gets, st.gets_overlapping_a_write, st.writes, st.batches, st.fetches, st.refetches_after_eviction, st.streaming_reads, st.in_memory_reads, st.fresh_key_reads, st.final_gets, st.max_set, harness_errors);
+    let report = format!("{{\"evaluations\":{},\"distinct_nontrivial\":{},\"rule\":{},\"samples\":[],\"distribution\":{},\"oracle_failures\":[{}]}}",
+        st.gets, st.gets_overlapping_a_write, jstr("get (of free-running threads) that overlaps at least one write of an element of its key; every get is checked against per-element regular semantics, every key against the reference after quiescence"), dist, fails_json.join(","));
+    out.finish(&report);
+}
+// <<< CONC-END
+
 // ------------------------------------------------------------------------------------------------
 macro_rules! pick_sent { ($idx:expr, $f:ident) => { match $idx { 0 => $f::<Sent0>, 1 => $f::<Sent1>, 2 => $f::<Sent2>, 3 => $f::<Sent3>, 4 => $f::<Sent4>, _ => $f::<Sent5> } }; }
 fn main() {
@@ -952,6 +1961,16 @@ fn main() {
     let mut sidx = None;
     for (i, f) in cands.iter().enumerate() { if std::panic::catch_unwind(|| f()).unwrap_or(false) { sidx = Some(i); break; } }
     let sidx = match sidx { Some(i) => i, None => { eprintln!("harness: no sentinel column is notified last – the after-commit pass changed"); std::process::exit(2); } };
+    if a.rest.iter().any(|x| x == "--conc-stress") {
+        let f: fn(&qbice_verif_harness::Args, Out) = pick_sent!(sidx, conc_stress_main);
+        f(&a, out);
+        return;
+    }
+    if a.rest.iter().any(|x| x == "--conc-gated") {
+        let f: fn(&qbice_verif_harness::Args, Out) = pick_sent!(sidx, conc_gated_main);
+        f(&a, out);
+        return;
+    }
     let run: Runner = pick_sent!(sidx, run_case);
     let mut st = Stats::default();
     let mut fails_json: Vec<String> = vec![];
